@@ -20,7 +20,7 @@ RULE = ("Hypothesis draws an asymmetric Gaussian-blob template (box 16..22, odd/
         "max_shifts_i in the input-molecule frame; loader kind single / batch / group / mock / multi-template / "
         "template-free. Oracle: output position = p* within 0.25 px, orientation = R* within 1e-3 rad, shift / "
         "rotation / score features describe (m, q_k). Non-trivial = q_k != identity and |m| >= 0.5 px.")
-TOLERANCES = {"position": "0.25 px * scale (0.35 template-free)", "orientation": "1e-3 rad", "align-d? features": "0.15 px*scale + 0.01",
+TOLERANCES = {"position": "0.25 px * scale (template-free: 0.2 + 0.2*|m| px, the average carries a 1/n ghost of the displaced particle)", "orientation": "1e-3 rad", "align-d? features": "0.15 px*scale + 0.01",
               "align-d?rot features": "2e-4", "score": ">= 0.9 (ZNCC/NCC)"}
 ASSUMPTIONS = ["for isotropic (max, step) ranges the candidate list is taken from acryo._rotation.normalize_rotations (its grid is C06's business)",
                "blob density stays inside the ball inscribed in the box under every searched rotation and shift"]
@@ -208,7 +208,12 @@ def judge(d):
     if sorted(uid) != list(range(n)):
         out.append(viol("C01/uids", f"{tag0}: uid column after alignment = {uid}"))
         return out
-    ptol = (0.35 if kind == "notemplate" else 0.25) * scale
+    ptol = 0.25 * scale
+    if kind == "notemplate":
+        # the template is the average of n particles of which one is displaced: a 1/n ghost of the displaced copy
+        # biases its shift estimate by about |m|/n
+        mmax = float(np.abs(c["m"]).max())
+        ptol = (0.2 + 0.2 * mmax) * scale
     for row, i in enumerate(uid):
         tag = f"{tag0} particle {i}: planted k={c['k'][i]} m_px={np.round(c['m'][i], 3).tolist()}"
         perr = float(np.abs(res.pos[row].astype(np.float64) - c["pstar"][i]).max())
@@ -222,7 +227,7 @@ def judge(d):
         f = res.features
         dz = np.array([f["align-dz"][row], f["align-dy"][row], f["align-dx"][row]], dtype=np.float64)
         ferr = float(np.abs(dz - c["m"][i] * scale).max())
-        if not ferr <= 0.15 * scale + 0.01 + (0.1 * scale if kind == "notemplate" else 0):
+        if not ferr <= (ptol + 0.01 if kind == "notemplate" else 0.15 * scale + 0.01):
             out.append(viol("C01/shift-features", f"{tag}: align-dz/dy/dx = {dz.tolist()} but the pose change is {np.round(c['m'][i] * scale, 3).tolist()} nm"))
         rv = np.array([f["align-dzrot"][row], f["align-dyrot"][row], f["align-dxrot"][row]], dtype=np.float64)
         want = c["cands"][c["k"][i]].as_rotvec()
@@ -275,7 +280,7 @@ def cases(draw, kinds=("single", "batch", "group", "mock", "multi", "notemplate"
     T = draw(st.sampled_from([1, 2, 2, 3, 3])) if kind == "multi" else 1
     blobsets = [draw(planted.blob_offsets(rmax, variant=v)) for v in range(T)]
     if kind == "notemplate":
-        n = 5
+        n = 8
     else:
         n = draw(st.integers(1, 4))
     ntomo = draw(st.integers(2, 3)) if kind == "batch" else 1
